@@ -78,6 +78,7 @@ func TestC03(t *testing.T) {
 	c.Regressions(eval)
 	prof := structuralProfile(c)
 	prof.WAny = 0
+	prof.WNull, prof.NullItems, prof.ArrayDepth = 2, true, 3
 	o := docOpts(c)
 	plan := &docPlan{NValid: 3, Kinds: map[string]bool{"type": true},
 		Keep: func(m *docs.Mutant) bool {
@@ -91,6 +92,9 @@ func TestC03(t *testing.T) {
 		NTValid:  func(v jv.V) bool { return true }}
 	runProperty(c, "run", c.N(200, 5000), 0, func(rt *rapid.T) *RunCase {
 		f := genStructural(rt, c, prof)
+		if rapid.IntRange(0, 3).Draw(rt, "namecollision") == 0 {
+			addNameCollision(rt, c, f)
+		}
 		cs := caseOf(baseConfig(), []string{f.RelPath}, f)
 		jobs := buildJobs(rt, c, f.Root, progRoot, plan, o, cs)
 		// explicit nulls at every nullable position of an all-present document
@@ -138,4 +142,37 @@ func TestC02(t *testing.T) {
 		c.Sample(sampleOf(cs, jobs))
 		return &RunCase{Case: cs, Jobs: jobs}
 	}, stdJudge)
+}
+
+// addNameCollision adds two object schemas that compete for one Go type name
+// (nesting-depth concatenation: colx.yz vs colx_yz; or a definition named like
+// <OtherDef><Property>) and declare the same property names with different
+// types: the second one must not silently reuse the first one's struct.
+func addNameCollision(t *rapid.T, c *core.Ctx, f *model.File) {
+	kinds := []model.Kind{model.KString, model.KInteger, model.KBoolean, model.KNumber}
+	perm := rapid.Permutation(kinds).Draw(t, "colkinds")
+	leafObj := func(k model.Kind, ak model.Kind) *model.Node {
+		return &model.Node{Kind: model.KObject, Props: []model.Prop{
+			{Name: "id", Node: &model.Node{Kind: k}},
+			{Name: "tags", Node: &model.Node{Kind: model.KArray, Items: &model.Node{Kind: ak}}},
+		}, Required: []string{"id"}}
+	}
+	switch rapid.IntRange(0, 1).Draw(t, "colshape") {
+	case 0:
+		// properties.colx.properties.yz  vs  properties.colx_yz  -> both <Root>ColxYz
+		a := &model.Node{Kind: model.KObject, Props: []model.Prop{{Name: "yz", Node: leafObj(perm[0], perm[1])}}, Required: []string{"yz"}}
+		f.Root.Props = append(f.Root.Props, model.Prop{Name: "colx", Node: a}, model.Prop{Name: "colx_yz", Node: leafObj(perm[1], perm[0])})
+		f.Root.Required = append(f.Root.Required, "colx", "colx_yz")
+	default:
+		// $defs.Colpet.properties.owner  vs  $defs.ColpetOwner
+		owner := leafObj(perm[0], perm[1])
+		pet := &model.Node{Kind: model.KObject, Props: []model.Prop{{Name: "owner", Node: owner}}, Required: []string{"owner"}}
+		other := leafObj(perm[1], perm[0])
+		f.Defs = append(f.Defs, model.Def{Name: "Colpet", Node: pet}, model.Def{Name: "ColpetOwner", Node: other})
+		f.Root.Props = append(f.Root.Props,
+			model.Prop{Name: "colpet", Node: &model.Node{Kind: model.KRef, Ref: "#/$defs/Colpet", Target: pet}},
+			model.Prop{Name: "colother", Node: &model.Node{Kind: model.KRef, Ref: "#/$defs/ColpetOwner", Target: other}})
+		f.Root.Required = append(f.Root.Required, "colpet", "colother")
+	}
+	c.Count("shape.name_collision")
 }
